@@ -110,6 +110,10 @@ def triage(unit, units, res, prop, tier='quick'):
                 return {'verdict': 'undecided', 'replay': path,
                         'reason': 'extraction-fidelity: verifier counterexample does not reproduce on the real code (see %s)' % path}
         failed_b = [l for l in blog.split('\n') if l.rstrip().endswith('FAILURE')]
+        for l in failed_b[:6]:
+            m = re.match(r'^\[([^\]]+)\]\s+(.*): FAILURE', l.strip())
+            if m:
+                res['failed'].append({'obligation': m.group(1) + ' [bounded re-check, capacity %d]' % BCAP, 'text': m.group(2)})
         path = write_replay(prop, unit, res, body + '\nobligations failing in the bounded run:\n' + '\n'.join(failed_b[:20]) +
                             '\n\nverifier output with counterexample trace:\n' + blog[-30000:])
         return {'verdict': 'violation', 'replay': (nat or {}).get('file') or path, 'failing_input': True, 'reason': 'refuted; bounded re-check gives a counterexample'}
